@@ -169,3 +169,130 @@ Proof.
         cbn [sfl_loop]. replace (Z.min s e <? 0) with true by lia. rewrite orb_true_r. discriminate.
       * apply Hkeep; lia.
 Qed.
+
+Definition proper (sp : list (Z * Z)) : Prop := Forall (fun ab => fst ab < snd ab) sp.
+
+Lemma sfl_clamp fx n sp : 0 <= n -> proper sp -> forall m,
+  sfl_loop n (clamp_spans fx n sp) = Ok m -> mpos m = rpositions n sp /\ Forall (span_in n) m.
+Proof.
+  intros Hn. induction sp as [|[s e] r IH]; intros Hp m.
+  - cbn. intros [= <-]. split; [reflexivity|constructor].
+  - inversion Hp as [|x y Hse Hr]; subst. cbn [fst snd] in Hse.
+    cbn [clamp_spans]. intros H.
+    assert (H' : sfl_loop n (match clamp_span fx n (s, e) with
+                             | Some q => q :: clamp_spans fx n r | None => clamp_spans fx n r end) = Ok m).
+    { destruct (clamp_span fx n (s, e)); exact H. }
+    destruct (sfl_step fx n s e _ m Hse Hn H') as (m1 & m2 & -> & E2 & Hpos & Hin).
+    destruct (IH Hr m2 E2) as (IH1 & IH2). split.
+    + rewrite mpos_app, Hpos, IH1. reflexivity.
+    + apply Forall_app. split; assumption.
+Qed.
+
+Lemma without_gaps_app m1 m2 : without_gaps (m1 ++ m2) = without_gaps m1 ++ without_gaps m2.
+Proof. unfold without_gaps. apply filter_app. Qed.
+
+Lemma mpos_without_gaps m : mpos (without_gaps m) = mpos m.
+Proof.
+  induction m as [|[a b|k] m IH]; [reflexivity| |]; cbn.
+  - f_equal. exact IH.
+  - exact IH.
+Qed.
+
+Lemma without_gaps_nrev n m : without_gaps (nucleic_reversed n m) = rev (map (nrev_span n) (without_gaps m)).
+Proof.
+  unfold nucleic_reversed.
+  induction m as [|[a b|k] m IH]; [reflexivity| |]; cbn [map rev without_gaps filter is_lost negb].
+  - fold (without_gaps m). cbn [map rev]. rewrite without_gaps_app, IH. reflexivity.
+  - fold (without_gaps m). rewrite without_gaps_app, IH. cbn. rewrite app_nil_r. reflexivity.
+Qed.
+
+Definition no_lost (m : list span) : Prop := forall s, In s m -> is_lost s = false.
+
+Lemma without_gaps_no_lost m : no_lost (without_gaps m).
+Proof. intros s Hs. apply filter_In in Hs. destruct Hs as [_ Hs]. destruct (is_lost s); [discriminate|reflexivity]. Qed.
+
+Lemma Forall_without_gaps n m : Forall (span_in n) m -> Forall (span_in n) (without_gaps m).
+Proof.
+  intros H. apply Forall_forall. intros s Hs. apply filter_In in Hs.
+  apply (proj1 (Forall_forall _ _) H). tauto.
+Qed.
+
+Lemma make_feature_pos fx n rced sp minus fv : 0 <= n -> proper sp ->
+  make_feature fx n rced sp minus = Ok fv ->
+  fv_minus fv = negb (Bool.eqb minus rced) /\
+  exists m, Forall (span_in n) m /\ no_lost m /\ mpos m = rpositions n sp /\
+    without_gaps (fv_map fv) = if rced then rev (map (nrev_span n) m) else m.
+Proof.
+  intros Hn Hp. unfold make_feature.
+  destruct (all_coords sp) as [|x r]; [discriminate|].
+  set (pre := if fold_right Z.min x r <? 0 then _ else 0).
+  set (post := if fold_right Z.max x r >? n then _ else 0).
+  destruct (spans_from_locations n (clamp_spans fx n sp)) as [m0|c] eqn:E; [|discriminate].
+  cbn [bind]. intros [= <-]. cbn [fv_minus fv_map]. split; [reflexivity|].
+  assert (E0 : sfl_loop n (clamp_spans fx n sp) = Ok m0).
+  { unfold spans_from_locations in E. destruct (clamp_spans fx n sp) as [|[s0 e0] l0] eqn:El.
+    - injection E as <-. reflexivity.
+    - destruct (s0 >? _); [discriminate|exact E]. }
+  destruct (sfl_clamp fx n sp Hn Hp m0 E0) as (Hpos & Hin).
+  exists (without_gaps m0). split; [now apply Forall_without_gaps|]. split; [apply without_gaps_no_lost|].
+  split; [rewrite mpos_without_gaps; exact Hpos|].
+  assert (Hwg : without_gaps (if negb (pre =? 0) || negb (post =? 0)
+                 then (if negb (pre =? 0) then [SLost pre] else []) ++ m0 ++ (if negb (post =? 0) then [SLost post] else [])
+                 else m0) = without_gaps m0).
+  { destruct (negb (pre =? 0) || negb (post =? 0)); [|reflexivity].
+    rewrite !without_gaps_app.
+    destruct (negb (pre =? 0)); destruct (negb (post =? 0)); cbn; rewrite ?app_nil_r; reflexivity. }
+  destruct rced.
+  - rewrite without_gaps_nrev, Hwg. reflexivity.
+  - exact Hwg.
+Qed.
+
+(** * reading a map off a view *)
+
+Definition orient (v : view) (s : list Z) : list Z := if is_reversed v then cmpl s else s.
+
+Lemma cmpl_app a b : cmpl (a ++ b) = cmpl a ++ cmpl b.
+Proof. unfold cmpl. apply map_app. Qed.
+
+Lemma orient_app v a b : orient v (a ++ b) = orient v a ++ orient v b.
+Proof. unfold orient. destruct (is_reversed v); [apply cmpl_app|reflexivity]. Qed.
+
+Lemma py_slice_unit {A} (D : list A) a b : 0 <= a <= b -> b <= zlen D ->
+  py_slice D (Some a) (Some b) 1 = gather D (zr a b).
+Proof.
+  intros Hab Hb. rewrite py_slice_unfold.
+  rewrite !adj_pos_nonneg by (try apply zlen_nonneg; lia).
+  replace (Z.min (zlen D) a) with a by lia. replace (Z.min (zlen D) b) with b by lia.
+  fold (py_range a b 1). rewrite py_range_1. reflexivity.
+Qed.
+
+Lemma view_substr_spec v p a b : WF v -> zlen p = seq_len v -> 0 <= a <= b -> b <= vlen v ->
+  exists v', view_substr v p a b = Ok (v', orient v (gather (value v p) (zr a b))).
+Proof.
+  intros Hwf Hp Hab Hb. unfold view_substr.
+  assert (Hc : @None Z <> Some 0) by discriminate.
+  destruct (getitem_slice FSeqView v (Some a) (Some b) None) as [v'|c] eqn:E.
+  2:{ exfalso. exact (getitem_slice_no_err FSeqView v (Some a) (Some b) None c Hwf Hc E). }
+  cbn [bind]. exists v'. f_equal. f_equal.
+  pose proof (value_getitem_slice_lemma FSeqView v p (Some a) (Some b) None v' Hwf (or_intror Hp) Hc E) as Hv.
+  cbn [step_of] in Hv.
+  rewrite py_slice_unit in Hv by (rewrite ?(len_value_lemma v p Hwf Hp); lia).
+  pose proof (wf_getitem_slice_lemma FSeqView v (Some a) (Some b) None v' Hwf E) as Hwf'.
+  destruct (step_getitem_slice FSeqView v (Some a) (Some b) None v' Hwf Hc E) as [Hz|Hs].
+  - assert (He : value v' p = []).
+    { apply (value_empty v' p Hwf'). apply (wf_empty_iff v' Hwf'). exact Hz. }
+    rewrite He in *. rewrite <- Hv. unfold orient, cmpl. destruct (is_reversed v'), (is_reversed v); reflexivity.
+  - cbn [step_of] in Hs. unfold orient, is_reversed. rewrite Hs, Z.mul_1_r, Hv. reflexivity.
+Qed.
+
+Lemma segments_spec v p m : WF v -> zlen p = seq_len v -> Forall (span_in (vlen v)) m -> no_lost m ->
+  segments v p m = Ok (orient v (gather (value v p) (mpos m))).
+Proof.
+  intros Hwf Hp. induction m as [|[a b|k] m IH]; intros Hin Hnl.
+  - cbn. unfold orient, cmpl. destruct (is_reversed v); reflexivity.
+  - inversion Hin as [|x y Hxy Hr]; subst. cbn [span_in] in Hxy. destruct Hxy as (Hab & Hb).
+    cbn [segments]. destruct (view_substr_spec v p a b Hwf Hp Hab Hb) as (v' & ->). cbn [bind].
+    rewrite IH; [|assumption|intros s Hs; apply Hnl; now right]. cbn [bind].
+    cbn [mpos flat_map]. fold (mpos m). rewrite gather_app, orient_app. reflexivity.
+  - specialize (Hnl (SLost k) (or_introl eq_refl)). discriminate.
+Qed.
